@@ -27,8 +27,11 @@ def pfront(vecs):
     return [v for v in vs if not any(dominates(w, v) for w in vs)]
 
 
-def vec_of_row(row, spec, with_usage):
-    v = [row["Total<SEP>energy"], row["Total<SEP>latency"]]
+OBJ = {"ENERGY": lambda e, l: e, "LATENCY": lambda e, l: l, "ENERGY_DELAY_PRODUCT": lambda e, l: e * l}
+
+
+def vec_of_row(row, spec, with_usage, objs=("ENERGY", "LATENCY")):
+    v = [OBJ[o](row["Total<SEP>energy"], row["Total<SEP>latency"]) for o in objs]
     if with_usage:
         for l, L in enumerate(spec["levels"]):
             if L["size"] is not None:
@@ -37,10 +40,10 @@ def vec_of_row(row, spec, with_usage):
     return tuple(v)
 
 
-def ref_vectors(spec, ref, with_usage):
+def ref_vectors(spec, ref, with_usage, objs=("ENERGY", "LATENCY")):
     out = []
     for m, e, l in ref:
-        v = [e, l]
+        v = [OBJ[o](e, l) for o in objs]
         if with_usage:
             bits = S.usage_code(spec, m)
             for lv, L in enumerate(spec["levels"]):
@@ -57,17 +60,21 @@ def run(ck):
     d = common.BUILD / "run" / f"c02-{os.getpid()}"
     d.mkdir(parents=True, exist_ok=True)
     exprs, keys = [], []
-    dist = {"front_sizes": [], "returned_rows": [], "with_usage": 0}
-    for i in range(ck.n(14, 120)):
+    dist = {"front_sizes": [], "returned_rows": [], "with_usage": 0, "metric_sets": {}}
+    for i in range(ck.n(16, 120)):
         spec, space = R.gen_search_spec(rng, max_space=ck.n(3000, 20000))
         ref = R.reference(spec, space)
         if not ref:
             continue
         with_usage = i % 3 == 2 and any(L["size"] is not None for L in spec["levels"])
         dist["with_usage"] += with_usage
-        metrics = ["ENERGY", "LATENCY"] + (["RESOURCE_USAGE"] if with_usage else [])
+        objs = ("ENERGY", "LATENCY")
+        if i % 4 == 3 and not with_usage:
+            objs = ("ENERGY_DELAY_PRODUCT", "ENERGY") if i % 8 == 3 else ("ENERGY_DELAY_PRODUCT", "LATENCY")
+        dist["metric_sets"]["|".join(objs)] = dist["metric_sets"].get("|".join(objs), 0) + 1
+        metrics = list(objs) + (["RESOURCE_USAGE"] if with_usage else [])
         res = R.run_mapper(af, spec, d, metrics)
-        rv = ref_vectors(spec, ref, with_usage)
+        rv = ref_vectors(spec, ref, with_usage, objs)
         fr = pfront([v for v, _ in rv])
         dist["front_sizes"].append(len(fr))
         ck.case(json.dumps([spec, metrics], sort_keys=True, default=str), nontrivial=len(fr) >= 2,
@@ -76,7 +83,7 @@ def run(ck):
             ck.failing_input({"spec": spec, "metrics": metrics, "mapper_error": res["error"], "arch_yaml": S.arch_yaml(spec), "workload_yaml": G.workload_yaml(spec)},
                              what=f"the mapper raised ({res['error'][:80]}) although valid mappings exist")
             continue
-        got = [vec_of_row(r, spec, with_usage) for r in res["rows"]]
+        got = [vec_of_row(r, spec, with_usage, objs) for r in res["rows"]]
         dist["returned_rows"].append(len(got))
         bad = []
         for a_i, a in enumerate(got):
@@ -119,7 +126,7 @@ def run(ck):
     dist["front_sizes"] = {"max": max(dist["front_sizes"] or [0]), "mean": sum(dist["front_sizes"]) / max(1, len(dist["front_sizes"]))}
     dist["returned_rows"] = {"max": max(dist["returned_rows"] or [0]), "mean": sum(dist["returned_rows"]) / max(1, len(dist["returned_rows"]))}
     return ck.finish(
-        rule="random single-Einsum specs as in C01; map_workload_to_arch with ENERGY|LATENCY (every third case also RESOURCE_USAGE); returned objective vectors checked for "
+        rule="random single-Einsum specs as in C01; map_workload_to_arch with ENERGY|LATENCY (every third case also RESOURCE_USAGE; every fourth ENERGY_DELAY_PRODUCT with ENERGY or with LATENCY); returned objective vectors checked for "
              "mutual non-dominance, distinctness, and completeness against the Pareto front of the exhaustively enumerated mapspace; non-trivial = the reference front has >= 2 points",
         trusted=TRUSTED,
         extra={"input_distribution": dist,
